@@ -351,8 +351,11 @@ int cif_loop_add_item_internal(
                 case SQLITE_CONSTRAINT:
                     TRACELINE;
                     sqlite3_reset(cif->add_loop_item_stmt);
-                    ROLLBACK_NESTTX(cif->db);
-                    FAIL(soft, CIF_DUP_ITEMNAME);
+                    if (ROLLBACK_NESTTX(cif->db) == SQLITE_OK) {
+                        FAIL(soft, CIF_DUP_ITEMNAME);
+                    }
+                    /* the transaction is still open; fall out the bottom, which tries once more to end it, and fail */
+                    break;
                 default:
                     TRACELINE;
                     sqlite3_reset(cif->add_loop_item_stmt);
